@@ -12,8 +12,10 @@ def audit_leg(ctx, binp, corr_broken):
     """Audit round 7 (B16, B20): `httpb` ops — status, broker and the number of body bytes each handler
     consumes, replayed through Nsq.Model.HttpFull.serve / Nsq.Model.HttpBody.bodyRead; model-free oracle "no
     handler consumes more than max(max-msg-size, max-body-size)+1 bytes"; interrupted requests on the listener.
-    The model prints the current shape (`R`) and the shape before fix F33 (`RO`); the old shape is accepted
-    only while the replay corpus/C10/known/admin_body_unbounded.opsb still reproduces the finding."""
+    The model prints the current shape (`R`) and the shape before fix F33 (`RO`). F33 (/repo 894b9eb) is committed: ONLY `R`
+    is accepted (audit B12) - a tree that reads the body again disagrees with the model on every admin line, breaks
+    Tie.ProtoHttpFull.newReqParams_reads_no_body, and the replay corpus/C10/fixed/admin_body_unbounded.opsb reports
+    `admin-body-unbounded` (listed fixed) as a VIOLATION."""
     corpus = os.path.join(ctx.work, "corpusb")
     os.makedirs(corpus, exist_ok=True)
     n = 0
@@ -78,8 +80,7 @@ def audit_leg(ctx, binp, corr_broken):
                 if fits(cur):
                     a = "%s R%s %s" % (fa[0], cur, fa[2])
                 elif unfixed and fits(old):
-                    old_shape += 1
-                    a = "%s R%s %s" % (fa[0], cur, fa[2])
+                    old_shape += 1   # counted for the evidence only: the pre-F33 shape is NOT accepted any more
                 b = "%s %s %s" % (fb[0], fb[1], fb[3])
         norm_impl.append(a)
         norm_model.append(b)
@@ -184,8 +185,9 @@ def run(ctx):
         "the daemon is not exiting (503 EXITING from /pub and /mpub) and os.Hostname() succeeds (/info answers 500 otherwise): "
         "no model branch, named exclusions",
         "backend I/O faults (topic.Empty / channel.Empty / PersistMetadata errors) are outside",
-        "body_read_bounded, admin_reads_no_body: the tree with fix F33 (fixes/F33_reqparams_no_body_read.patch); on the "
-        "unfixed tree the statement is false (body_read_bounded_false_before_F33, open finding admin-body-unbounded)",
+        "body_read_bounded, admin_reads_no_body hold on this tree: F33 (/repo 894b9eb: NewReqParams reads nothing of the body) is "
+        "committed, tie newReqParams_reads_no_body + only the `R` column of the httpb leg accepted; body_read_bounded_false_before_F33 is "
+        "about the tree BEFORE it (finding admin-body-unbounded, listed fixed, replayed on every run: a reproduction is a VIOLATION)",
         "mpub_text_vs_tcp: options shared (Linked), valid topic name, framed batch shorter than 2^31 bytes",
         "equivalence theorems: both servers read the same options, auth disabled, 0 <= max-req-timeout < 2^63-1 ns, "
         "max-msg-size >= 0, body shorter than 2^31 bytes, request complete (declared length = body length, or chunked)",
